@@ -121,6 +121,18 @@ func genC09(seed int64, tier string) *Scenario {
 	if classes {
 		use.WriteString("---@type Cls0\nlocal c0 = nil\nprint(c0.fa0)\n")
 	}
+	if r.Intn(3) == 0 {
+		// a native module required from several files of the same first-pass batch: the lookups of
+		// "native.so" go through the shared file-exists cache from several workers at once
+		sc.Files = append(sc.Files, File{Path: "native.so", Data: Bytes("\x7fELF")}, File{Path: "d0/deep/other.so", Data: Bytes("\x7fELF")})
+		for i := range sc.Files {
+			if strings.HasSuffix(sc.Files[i].Path, ".lua") && r.Intn(2) == 0 {
+				sc.Files[i].Data = append(Bytes("local nat = require(\"native\")\nlocal oth = require(\"deep.other\")\nprint(nat, oth)\n"), sc.Files[i].Data...)
+			}
+		}
+		use.WriteString("local nat = require(\"native\")\nprint(nat)\n")
+		sc.Knobs["native"] = true
+	}
 	projectMode := r.Intn(4) == 0
 	if projectMode {
 		// luahelper.json project mode: the entry file pulls other files in through require, so the
@@ -133,6 +145,9 @@ func genC09(seed int64, tier string) *Scenario {
 			entries = append(entries, sc.Files[r.Intn(len(sc.Files))].Path)
 		}
 		cfg := map[string]interface{}{"BaseDir": "./", "ShowWarnFlag": 1, "ProjectFiles": entries}
+		if r.Intn(2) == 0 {
+			cfg["ReferMatchPathFlag"] = 1 // full-path matching: every require goes through the file-exists cache
+		}
 		b, _ := json.Marshal(cfg)
 		sc.Files = append(sc.Files, File{Path: "luahelper.json", Data: Bytes(b)})
 		sc.Knobs["project"] = true
